@@ -383,8 +383,10 @@ func (rr *RRSIG) Verify(k *DNSKEY, rrset []RR) error {
 		return ErrKey
 	}
 
+	// Names are compared as names, not as text: one name can be written in more
+	// than one way (w\ww.example. is www.example.).
 	signerName := canonicalName(rr.SignerName)
-	if signerName != canonicalName(k.Hdr.Name) {
+	if !equal(signerName, canonicalName(k.Hdr.Name)) {
 		return ErrKey
 	}
 
@@ -408,8 +410,8 @@ func (rr *RRSIG) Verify(k *DNSKEY, rrset []RR) error {
 	if h0 := rrset[0].Header(); h0.Class != rr.Hdr.Class ||
 		h0.Rrtype != rr.TypeCovered ||
 		uint8(CountLabel(h0.Name)) < rr.Labels ||
-		canonicalName(h0.Name) != canonicalName(rr.Hdr.Name) ||
-		!strings.HasSuffix(canonicalName(h0.Name), signerName) {
+		!equal(canonicalName(h0.Name), canonicalName(rr.Hdr.Name)) ||
+		!IsSubDomain(signerName, canonicalName(h0.Name)) {
 
 		return ErrRRset
 	}
